@@ -584,7 +584,9 @@ def follow_binding(fn, let, pm, chain):
             if p is not None and p.get("k") == "MethodCall" and p["recv"] is v and p["name"] == "truncate" and selected is not None and p["args"]:
                 from .facts import Render as _R
                 cut = _R(fn["crate"]).e(peel_refs(p["args"][0])).replace(" ", "").strip("()")
-                if selected in (cut + "-1", "(%s-1)" % cut) or cut in (selected + "+1", "(%s+1)" % selected):
+                # select_nth_unstable(k - 1) puts the k smallest first (the pivot included); select_nth_unstable(k) puts the k
+                # smallest before the pivot: in both cases truncate(k) keeps exactly the k smallest as a set
+                if selected == cut or selected in (cut + "-1", "(%s-1)" % cut) or cut in (selected + "+1", "(%s+1)" % selected):
                     continue
                 return Consumer("order", "truncated at `%s` after a selection at `%s`: the kept prefix is not the selected set" % (cut, selected), p, chain)
             verdicts.append(follow_collection(fn, u, pm, chain + "->" + binds[0]["name"]))
